@@ -34,6 +34,18 @@ def run(ctx):
     # Found by the Ramalhete impl spec (HelpTail); on the real code it needs two preemptions at the right places among ~150 steps.
     djobs = ['%s/%s/I;%s' % (qc, r, DIRECTED2 if qc in ('ram21', 'nik21') else DIRECTED) for qc in ('ram10', 'nik10', 'ms', 'ram21', 'nik21') for r in (('he3', 'stamp') if q else RECL)]
     run_queues(ctx, djobs, pb=2, max_exec=12000 if q else 80000, tagx='d')
+    # A: address reuse.  The heap quarantine never hands out an address twice; with --reuse the children recycle freed blocks (LIFO per size
+    # class), so that a node pointer compared by a CAS can belong to a NEW node at the old address (ABA through head / tail / next / entries)
+    import xvlib
+    xvlib.EXTRA_ALL[0] = '--reuse'
+    try:
+        ajobs = []
+        for r in (['hp3', 'lfrc'] if q else ['hp3', 'he3', 'lfrc', 'ebr0', 'stamp']):
+            ajobs += ['ms/%s/I;push1;push2,pop;pop,push3' % r, 'ms/%s/I;push1,push2;pop,pop,push3;pop,push4' % r, 'ram10/%s/I;push1;push2,pop;pop,push3' % r,
+                      'ram21/%s/P;push1,push2;push3,pop,pop;pop,push4' % r, 'nik10/%s/I;push1;push2,pop;pop,push3' % r, 'nik21/%s/I;push1,push2;pop,pop,push3;pop,push4' % r]
+        run_queues(ctx, ajobs, pb=2, max_exec=2000 if q else 40000, tagx='reuse_')
+    finally:
+        xvlib.EXTRA_ALL[0] = ''
     # S: the impl specs are bound to the code at the grain of single atomic accesses; the bindings are independent and run side by side
     from props.c03 import step_bind
     sb = []
